@@ -253,6 +253,12 @@ func jsonStr(v any) string {
 
 // Finish writes the evidence file, prints KNOWN-FINDING / VIOLATION lines and exits.
 func (r *Run) Finish(rule string) {
+	if OverlapDiverged > 0 {
+		r.Incomplete(fmt.Sprintf("overlap enumeration: %d executions could not follow their recorded schedule prefix — the library keeps state between calls that changes which environment calls a later call makes; those executions were continued without the prefix (their checks ran), so not every interleaving was covered", OverlapDiverged))
+	}
+	if n := atomic.LoadInt64(&OverlapBlocked); n > 0 {
+		r.Incomplete(fmt.Sprintf("overlap enumeration: in %d executions a call waited inside the library for something (a lock) held by another call that was parked at one of its environment calls; the one-at-a-time discipline cannot run that, those executions were finished uncontrolled and not judged, and the overlap families were abandoned", n))
+	}
 	r.mu.Lock() // never released: a watchdog may finish the run while workers still report
 	if r.ReplaySig != "" {
 		fmt.Printf("NOT-REPRODUCED property=%s signature=%q (evaluations=%d)\n", r.ID, r.ReplaySig, r.evals)
